@@ -1,4 +1,4 @@
-import Nsq.Gen.WireStack
+import Nsq.Tie.WireStackTree
 import Nsq.Model.WireStack
 /-! Tie (C07 / C11, audit A2): which transport `SetOutputBuffer` re-creates the writer on.
 
@@ -11,24 +11,12 @@ and the double-IDENTIFY class of the end-to-end oracle. -/
 namespace Nsq.Tie.WireStack
 open Nsq.Gen.WireStack
 
-def setUnfixed : List String := [
-  "if desiredSize != 0",
-  "assign err := c.Writer.Flush()",
-  "assign c.Writer = bufio.NewWriterSize(c.Conn, c.OutputBufferSize)"]
-
-def setFixed : List String := [
-  "if desiredSize != 0",
-  "assign err := c.Writer.Flush()",
-  "assign c.Writer = bufio.NewWriterSize(c.outputDest, c.OutputBufferSize)"]
-
-/-- the tree the model has to follow: `Model.WireStack.tstep treeFixed` -/
-def treeFixed : Bool := setOutputBufferWriter == setFixed
-
 /-- `SetOutputBuffer`: flush, then a new writer on the raw connection (unfixed) or on `outputDest` (F30) -/
 theorem setOutputBuffer_shape : setOutputBufferWriter = setUnfixed ∨ setOutputBufferWriter = setFixed := by decide
 
 /-- the three upgrades install a new writer on a new transport; in the fixed tree each records that
-very transport in `outputDest` (so `SetOutputBuffer` re-uses it), and nothing else assigns `outputDest` -/
+very transport in `outputDest` (so `SetOutputBuffer` re-uses it), nothing else assigns `outputDest`, and
+`UpgradeSnappy` drops a deflate writer installed by an earlier IDENTIFY (`Flush` would keep flushing it) -/
 theorem upgrades_shape :
     (treeFixed = false ∧
       upgradeTLSWriter = ["assign c.Writer = bufio.NewWriterSize(c.tlsConn, c.OutputBufferSize)"] ∧
@@ -40,6 +28,7 @@ theorem upgrades_shape :
       upgradeTLSWriter = ["assign c.outputDest = c.tlsConn",
                           "assign c.Writer = bufio.NewWriterSize(c.tlsConn, c.OutputBufferSize)"] ∧
       upgradeSnappyWriter = ["assign sw := snappy.NewWriter(conn)",
+                             "assign c.flateWriter = nil",
                              "assign c.outputDest = sw",
                              "assign c.Writer = bufio.NewWriterSize(sw, c.OutputBufferSize)"] ∧
       upgradeDeflateWriter = ["assign fw, _ := flate.NewWriter(conn, level)",
